@@ -29,11 +29,13 @@ def ulpOfBits (b : UInt32) : Rat :=
   let e := F32.expField b
   ratPow2 ((if e == 0 then 1 else (e : Int)) - 150)
 
-/-- error measures: absolute, relative to the reference, in ulps of the reference -/
+/-- error measures: absolute, relative to the reference, relative to max(|reference|, 1) (`mix`), in
+ulps of the reference -/
 def errWithin (kind : String) (bound : Rat) (got want : Rat) (wantBits : UInt32) : Bool :=
   let d := ratAbs (got - want)
   if kind == "abs" then decide (d ≤ bound)
   else if kind == "rel" then decide (d ≤ bound * ratAbs want)
+  else if kind == "mix" then decide (d ≤ bound * ratMax (ratAbs want) 1)
   else decide (d ≤ bound * ulpOfBits wantBits)
 
 /-- `r ≈ 1/√x` judged without any square root: `|r²·x − 1| ≤ 2ε + ε²` iff the relative error of `r` is
